@@ -112,6 +112,25 @@ class Rat:
     def symbols(self):
         return set(s for p in (self.n, self.d) for k in p.t for s, e in k)
 
+    def scaled(self, name, k):
+        """the function with symbol `name` replaced by k*name"""
+        def sp(p):
+            t = {}
+            for mono, v in p.t.items():
+                e = dict(mono).get(name, 0)
+                t[mono] = v * (Fraction(k) ** e)
+            return Poly(t)
+        return Rat(sp(self.n), sp(self.d))
+
+    def independent_of(self, names):
+        """f(2s) == f(s) as a rational identity implies f does not depend on s (zeros/poles would be scale invariant)"""
+        return all(self.same(self.scaled(nm, 2)) for nm in names if nm in self.symbols())
+
+    def at_ones(self):
+        """value with every symbol set to 1 (None if the denominator vanishes)"""
+        d = sum(self.d.t.values())
+        return (sum(self.n.t.values()) / d) if d != 0 else None
+
     def __repr__(self):
         return "(%r)/(%r)" % (self.n, self.d)
 
